@@ -395,6 +395,10 @@ class Executor:
                 raise Unsupported("sequence repetition")
         if isinstance(a, STuple) and isinstance(b, STuple) and isinstance(op, ast.Add):
             return STuple(a.items + b.items)
+        if isinstance(op, ast.BitOr) and any(isinstance(x, V) and isinstance(x.ty, TSet) for x in (a, b)):
+            # set union as an expression (`s | t`): z3's array-based set union (extensional; no fresh constant)
+            sty = next(x.ty for x in (a, b) if isinstance(x, V) and isinstance(x.ty, TSet))
+            return V(sty, z3.SetUnion(coerce(a, sty).z, coerce(b, sty).z))
         x = coerce(a, INT).z
         y = coerce(b, INT).z
         if isinstance(op, ast.Add):
@@ -502,6 +506,9 @@ class Executor:
                 if isinstance(item, V) and item.ty == CHAR:
                     return z3.Or(*[item.z == ord(ch) for ch in cont.v]) if cont.v else z3.BoolVal(False)
             raise Unsupported("`in` on constant")
+        if isinstance(cont, PyObj) and isinstance(cont.o, tuple) and cont.o and cont.o[0] == "setlit":
+            # `x in {a, b}`: membership in a set display is equality with one of its elements
+            return z3.Or(*[val_eq(item, x) for x in cont.o[1]]) if cont.o[1] else z3.BoolVal(False)
         if isinstance(cont, PyObj):
             raise Unsupported(f"`in` on python object {cont.o!r}")
         t = cont.ty
@@ -779,6 +786,38 @@ class Executor:
             z3.Select(seq_arr(r), fi(a, b)) == z3.Select(seq_arr(inner(a)), b)))))
         return r
 
+    def flatten_value(self, st, outer):
+        """itertools.chain.from_iterable(xss) for a list VALUE xss of lists (or of Optional lists: iterating a None
+        element is a TypeError, hence a non-None obligation for every element): the same fresh list with index maps
+        both ways as flatten_comp."""
+        if isinstance(outer, V) and isinstance(outer.ty, TOpt):
+            outer = unwrap_opt(outer)
+        if not (isinstance(outer, V) and isinstance(outer.ty, TList)):
+            raise Unsupported("chain.from_iterable of a non-list")
+        et = outer.ty.elem
+        it = et.inner if isinstance(et, TOpt) else et
+        if not isinstance(it, TList):
+            raise Unsupported("chain.from_iterable of a list whose elements are not lists")
+        j, a, b = z3.Int(T.fresh_name("qj")), z3.Int(T.fresh_name("qa")), z3.Int(T.fresh_name("qb"))
+        if isinstance(et, TOpt):
+            self.emit(st, "nonnull", "chain.from_iterable", forall([a], z3.Implies(z3.And(0 <= a, a < seq_len(outer)),
+                      z3.Not(is_none(V(et, z3.Select(seq_arr(outer), a)))))), note="TypeError (None is not iterable) otherwise")
+            inner = lambda ai: unwrap_opt(V(et, z3.Select(seq_arr(outer), ai)))
+        else:
+            inner = lambda ai: V(it, z3.Select(seq_arr(outer), ai))
+        r = fresh_seq(it, st, "chain")
+        fa = z3.Function(T.fresh_name("fa"), z3.IntSort(), z3.IntSort())
+        fb = z3.Function(T.fresh_name("fb"), z3.IntSort(), z3.IntSort())
+        fi = z3.Function(T.fresh_name("fidx"), z3.IntSort(), z3.IntSort(), z3.IntSort())
+        n = seq_len(r)
+        st.assume(forall([j], z3.Implies(z3.And(0 <= j, j < n), z3.And(
+            0 <= fa(j), fa(j) < seq_len(outer), 0 <= fb(j), fb(j) < seq_len(inner(fa(j))),
+            z3.Select(seq_arr(r), j) == z3.Select(seq_arr(inner(fa(j))), fb(j)), fi(fa(j), fb(j)) == j))))
+        st.assume(forall([a, b], z3.Implies(z3.And(0 <= a, a < seq_len(outer), 0 <= b, b < seq_len(inner(a))), z3.And(
+            0 <= fi(a, b), fi(a, b) < n, fa(fi(a, b)) == a, fb(fi(a, b)) == b,
+            z3.Select(seq_arr(r), fi(a, b)) == z3.Select(seq_arr(inner(a)), b)))))
+        return r
+
     def comprehension(self, st, e):
         if len(e.generators) == 2:
             return self.flatten_comp(st, e)
@@ -973,6 +1012,9 @@ class Executor:
             sp = f.o if isinstance(f, PyObj) else f
             r = self.apply_spec(st, sp, args, kwargs)
             return self.wrap(st, r, stmt_level)
+        if isinstance(f, V) and isinstance(f.ty, TRef) and f.ty.cls in CALLABLE_CONTRACT:
+            # calling an OBJECT of a declared class (functools.partial, callable task): the (assumed) contract registered for it
+            return self.call_contract(st, CONTRACTS[CALLABLE_CONTRACT[f.ty.cls]], [f] + args, kwargs, stmt_level, node)
         if not isinstance(f, PyObj):
             raise Unsupported(f"call of {f!r}")
         o = f.o
@@ -1059,7 +1101,10 @@ class Executor:
         if o is tuple:
             if not args:
                 return STuple([])
-            return args[0]
+            a = args[0]
+            if isinstance(a, PyObj) and isinstance(a.o, tuple) and a.o[0] == "genexp":
+                return self.comprehension(st, ast.ListComp(elt=a.o[1].elt, generators=a.o[1].generators))
+            return a
         if o is list:
             if not args:
                 return STuple([])
@@ -1108,6 +1153,22 @@ class Executor:
             if isinstance(a, V) and isinstance(a.ty, TRef) and not has_field(a.ty.cls, args[1].v):
                 return PyObj(("anyobj",))      # attribute of a subclass we know nothing about
             return self.getattr(st, a, args[1].v)
+        if o is next and len(args) == 2 and isinstance(args[0], PyObj) and isinstance(args[0].o, tuple) and args[0].o[0] == "genexp":
+            # next((x for x in xs if c), default): first element of the (order-preserving) filtered list, else the default
+            _, gnode, genv = args[0].o
+            saved = st.env
+            st.env = dict(genv)
+            try:
+                lst = self.comprehension(st, ast.ListComp(elt=gnode.elt, generators=gnode.generators))
+            finally:
+                st.env = saved
+            if not (isinstance(lst, V) and isinstance(lst.ty, TList)):
+                raise Unsupported("next() over this generator")
+            first = V(lst.ty.elem, z3.Select(seq_arr(lst), 0))
+            if isinstance(args[1], K) and args[1].v is None and not isinstance(lst.ty.elem, TOpt):
+                ot = TOpt(lst.ty.elem)
+                return V(ot, z3.If(seq_len(lst) > 0, coerce(first, ot).z, ot.sort().none))
+            return V(lst.ty.elem, z3.If(seq_len(lst) > 0, first.z, coerce(args[1], lst.ty.elem).z))
         if o is set and not args:
             return PyObj(("emptyset",))
         if o is dict and not args:
@@ -1139,6 +1200,18 @@ class Executor:
                 xs = self.comprehension(st, ast.ListComp(elt=xs.o[1].elt, generators=xs.o[1].generators))
             finally:
                 st.env = saved
+        if isinstance(xs, V) and isinstance(xs.ty, TSet) and key is None:
+            # sorted(<set>): a list that enumerates the set without repetition (the order of the elements is not modelled)
+            r = fresh_seq(TList(xs.ty.elem), st, "sortedset")
+            i = z3.Int(T.fresh_name("qp"))
+            j = z3.Int(T.fresh_name("qp"))
+            x = z3.Const(T.fresh_name("qx"), xs.ty.elem.sort())
+            wit = z3.Function(T.fresh_name("setw"), xs.ty.elem.sort(), z3.IntSort())
+            st.assume(forall([i], z3.Implies(z3.And(0 <= i, i < seq_len(r)), z3.Select(xs.z, z3.Select(seq_arr(r), i)))))
+            st.assume(z3.ForAll([x], z3.Implies(z3.Select(xs.z, x), z3.And(0 <= wit(x), wit(x) < seq_len(r), z3.Select(seq_arr(r), wit(x)) == x))))
+            st.assume(forall([i, j], z3.Implies(z3.And(0 <= i, i < j, j < seq_len(r)), z3.Select(seq_arr(r), i) != z3.Select(seq_arr(r), j))))
+            self.externals_used.add("builtins.sorted (assumed for a set argument: a repetition-free enumeration of the set)")
+            return r
         if not (isinstance(xs, V) and isinstance(xs.ty, TList)):
             raise Unsupported("sorted() of non-list")
         r = fresh_seq(xs.ty, st, "sorted")
@@ -1416,6 +1489,12 @@ class Executor:
             return
         if isinstance(target, (ast.Tuple, ast.List)):
             n = len(target.elts)
+            if isinstance(val, V) and isinstance(val.ty, TList) and not any(isinstance(t, ast.Starred) for t in target.elts):
+                # `a, b = xs` with xs a list: ValueError unless it has exactly as many elements as there are targets
+                self.emit(st, "bounds", "unpack-length", seq_len(val) == n, note="ValueError otherwise")
+                for i, t in enumerate(target.elts):
+                    self.bind_target(st, t, V(val.ty.elem, z3.Select(seq_arr(val), i)))
+                return
             for i, t in enumerate(target.elts):
                 if isinstance(t, ast.Starred):
                     raise Unsupported("starred target")
@@ -1485,6 +1564,7 @@ class Executor:
 
 # -------------------------------------------------------------------------------------------------
 CLASS_OBJ: dict = {}       # short ref-class name -> real class object (for properties / methods)
+CALLABLE_CONTRACT: dict = {}   # short ref-class name -> key of the contract applied when an object of that class is CALLED
 REC_LEN: dict = {}
 ISINSTANCE_HOOK: dict = {}
 _contract_ast_cache: dict = {}
